@@ -101,7 +101,10 @@ def fam_timing(R):
 
 
 TERMINATORS = ([["M", 0, c, None, 90, last] for c in (69, 132, 160) for last in (1, 0)] +
-               [["M", 0, 69, 1000, 91, 1], ["M", 0, 69, 2, 92, 1], ["M", 0, 132, 1000, 93, 1]] +
+               [["M", 0, 69, 1000, 91, 1], ["M", 0, 69, 2, 92, 1]] +
+               # "(as every non-2.xx one is)": an error response that carries an Observe option anyway --
+               # fresher than, older than, equal to what was delivered last; marked last by the feeder or not
+               [["M", 0, c, o, 93, last] for c in (132, 160) for o in (1000, 2, 101) for last in (1, 0)] +
                [["X", 0, k] for k in range(6)])
 
 
@@ -138,6 +141,78 @@ def fam_terminators():
                         yield {"observe": observe, "events": evs, "iter": it}
 
 
+CODES = (64, 65, 69, 95, 96, 128, 132, 160, 191)      # 2.00 .. 2.31 are successful; 3.00 is the first that is not
+
+
+def fam_codes():
+    """every response code class boundary x (no Observe | fresher | older | duplicate | zero) x (marked last or
+    not) at every position of an observation, followed by more notifications"""
+    base = [100, 101, 50, 102, 103]
+    for pos in range(0, 4):
+        for code in CODES:
+            for o in (None, 1000, 2, base[pos - 1] if pos else 100, 0):
+                for last in (0, 1):
+                    evs, t = [], 0
+                    for i in range(4):
+                        t += 5
+                        if i == pos:
+                            evs.append(["M", t, code, o, 90, last])
+                            t += 5
+                        evs.append(notif(t, base[i], i))
+                    evs.append(notif(t + 5, 2000, 77))
+                    for it in (None, {"mode": "attentive", "start": 0}, {"mode": "busy", "start": 0, "work": 2},
+                               {"mode": "lazy", "start": min(pos + 1, len(evs))}):
+                        yield {"observe": True, "events": evs, "iter": it}
+
+
+def fam_cancel_in_callback():
+    """the application calls observation.cancel() from inside the callback that hands it a message: a fresh
+    notification, an older one (no callback, so no cancel), the last notification, the final response (with
+    and without Observe option, marked last or not); then more events"""
+    vals = [10, 11, 12, 13]
+    kinds = [[69, 200, 0], [69, 1, 0], [69, 200, 1], [69, None, 1], [69, None, 0], [132, None, 1],
+             [132, 300, 1], [132, 1, 1], [160, 300, 0], [95, 200, 0], [96, 200, 1]]
+    tails = ([], [notif(0, 400, 60)], [notif(0, 400, 60), ["M", 0, 132, None, 61, 1], notif(0, 401, 62)],
+             [["X", 0, 2]], [["M", 0, 69, None, 61, 1]], [["RC", 0], notif(0, 400, 60)])
+    for pos in range(1, 5):
+        for code, o, last in kinds:
+            for tail in tails:
+                evs, t = [], 0
+                for i in range(pos):
+                    t += 3
+                    evs.append(notif(t, vals[i], i))
+                t += 3
+                evs.append(["M", t, code, o, 50, last, 1])
+                for e in tail:
+                    t += 3
+                    e = list(e)
+                    e[1] = t
+                    evs.append(e)
+                if last or not (o is not None and 64 <= code < 96):
+                    evs = [e for e in evs if e[0] != "X"]      # the pipe has ended: an exception is outside C07
+                yield {"observe": True, "events": evs, "iter": None}
+    # two callbacks' worth of cancels: a second cancelling message never gets a callback
+    yield {"observe": True, "iter": None,
+           "events": [notif(0, 1, 0), ["M", 1, 69, 2, 1, 0, 1], ["M", 2, 69, 3, 2, 0, 1], notif(3, 4, 3)]}
+
+
+def fam_response_cancel():
+    """request.response.cancel() (what asyncio.wait_for does on time-out) before the first event, with every
+    kind of consumer, followed by every kind of first event; and after the first response (no effect)"""
+    its = (None, {"mode": "attentive", "start": 0}, {"mode": "lazy", "start": 0}, {"mode": "lazy", "start": 2},
+           {"mode": "busy", "start": 0, "work": 2}, {"mode": "attentive", "start": 1})
+    tails = ([], [notif(5, 7, 40)], [notif(5, 7, 40), notif(6, 8, 41), ["M", 7, 132, None, 42, 1]],
+             [["M", 5, 132, None, 40, 1]], [["M", 5, 69, None, 40, 0]])
+    for observe in (True, False):
+        for tail in tails:
+            for it in (its if observe else (None,)):
+                yield {"observe": observe, "iter": it, "events": [["RC", 1]] + tail}
+                yield {"observe": observe, "iter": it, "events": [["RC", 1], ["RC", 2]] + tail}
+    for it in its:
+        yield {"observe": True, "iter": it,
+               "events": [notif(1, 5, 0), ["RC", 2], notif(3, 6, 1), notif(4, 7, 2), ["M", 5, 132, None, 3, 1]]}
+
+
 def fam_app():
     vals = [10, 11, 5, 12, 13]
     for pos in range(0, 6):
@@ -167,11 +242,12 @@ def fam_cancel_first():
     event, then more"""
     firsts = ([["M", 5, c, o, 40, last] for c in (69, 132) for o in (None, 7) for last in (0, 1)] +
               [["X", 5, k] for k in range(6)])
+    firsts += [["M", 5, 132, 7, 40, 0], ["M", 5, 132, 7, 40, 1]]
     for first in firsts:
         for pre in ([["OC", 1]], [["OC", 1], ["RC", 2]], [["RC", 1], ["OC", 2]], [["OC", 1], ["OC", 2]]):
             for tail in ([], [notif(9, 8, 41)], [notif(9, 8, 41), ["M", 12, 132, None, 42, 1]],
                          [notif(9, 8, 41), notif(10, 9, 43), ["RC", 11], notif(12, 10, 44)]):
-                if first[0] == "X" or first[5] or first[3] is None:
+                if first[0] == "X" or first[5] or first[3] is None or not 64 <= first[2] < 96:
                     # the pipe has ended: an exception after that is outside C07
                     tail = [e for e in tail if e[0] != "X"]
                 yield {"observe": True, "iter": None, "events": pre + [first] + tail}
@@ -196,11 +272,15 @@ def random_history(rng, R):
             if rng.random() < 0.93:
                 v %= M24
             v = max(v, 0)
-            code = 69 if rng.random() < 0.95 else rng.choice([65, 132, 160])
+            code = 69 if rng.random() < 0.93 else rng.choice([64, 65, 95, 96, 132, 160])
             evs.append(notif(t, v, i, last=1 if rng.random() < 0.04 else 0, code=code))
+            if rng.random() < 0.04:
+                evs[-1].append(1)        # the application cancels from inside the callback
             cur = v
         elif r < 0.90:
             evs.append(["M", t, rng.choice([69, 132, 160, 128]), None, i, 1 if rng.random() < 0.7 else 0])
+            if rng.random() < 0.1:
+                evs[-1].append(1)
         elif r < 0.95:
             evs.append(["X", t, rng.randrange(6)])
         elif r < 0.98:
@@ -213,9 +293,10 @@ def random_history(rng, R):
         if over and e[0] == "X":
             continue
         out.append(e)
-        if e[0] == "X" or (e[0] == "M" and (e[5] or e[3] is None)) or (i == 0 and e[0] == "RC"):
+        if e[0] == "X" or (e[0] == "M" and (e[5] or e[3] is None or not 64 <= e[2] < 96)) or \
+                (e[0] == "RC" and not any(x[0] in ("M", "X") for x in out[:-1])):
             over = True
-        if e[0] == "OC":
+        if e[0] == "OC" or (e[0] == "M" and len(e) > 6):
             over = True      # conservative: the next pipe event ends it
     it = None
     r = rng.random()
@@ -240,6 +321,9 @@ def level_a_cases(env, R):
     fams.append(("terminators", list(fam_terminators())))
     fams.append(("app", list(fam_app())))
     fams.append(("cancel-first", list(fam_cancel_first())))
+    fams.append(("codes", list(fam_codes())))
+    fams.append(("cancel-in-callback", list(fam_cancel_in_callback())))
+    fams.append(("response-cancel", list(fam_response_cancel())))
     wrap = [M24 - 2, M24 - 1, 0, 1]
     half = [5, 5 + M23 - 1, 5 + M23, 5 + M23 + 1]
     over = [0, M24 - 1, M24, M24 + 1]
@@ -334,15 +418,15 @@ def stack_script(rng, R, forced=None, consumer=None):
         elif r > 0.9:
             evs.append(R_(mt, 69, m, v, 10 + i, tok="22"))          # unknown token
         elif r > 0.84:
-            # malformed: an error response that carries an Observe option is a notification
-            # (the runner and the token manager only look at the option)
+            # malformed: an error response that carries an Observe option anyway -- the final response
+            # ("as every non-2.xx one is"); what follows are late notifications on a retired token
             evs.append(R_(mt, rng.choice([132, 160]), m, v, 10 + i))
         else:
             evs.append(R_(mt, 69, m, v, 10 + i))
     sc = {"events": evs, "rules": [], "draws": [], "mid": c07_stack.REQ_MID, "token": 32}
     if consumer is None:
         consumer = rng.random() < 0.4
-    if consumer and not oc_first and not any(e[0] in ("OC", "C") for e in evs):
+    if consumer and not oc_first and not any(e[0] == "OC" for e in evs):
         work = rng.choice([0, 1, 3, 50, 5000, R // 2])
         sc["consumer"] = {"work": work}
         t += (n + 4) * work
@@ -375,6 +459,48 @@ def stack_cancel_first_scripts():
                         ["A", 30]]
                     evs.sort(key=lambda e: e[1])
                     out.append({"events": evs, "rules": [], "draws": [], "mid": c07_stack.REQ_MID, "token": 32})
+    return out
+
+
+def stack_audit_scripts():
+    """non-2.xx responses carrying an Observe option (first response / later, fresher or older than what was
+    delivered, CON / NON / piggy-backed) followed by late notifications; request.response.cancel() before the
+    first response with an `async for` consumer"""
+    TOK = c07_stack.TOKEN
+    S = ["S", 0, 0, 0, False, True, None, True, 1, None, 0, 4]
+    out = []
+    for code in (132, 160):
+        for mt in ("CON", "NON"):
+            for o in (9, 3, 5):
+                for work in (None, 0, 3):
+                    evs = [S, ["R", 3, 0, False, "ACK", 69, c07_stack.REQ_MID, TOK, 5, 1],
+                           ["R", 7, 0, False, mt, 69, 300, TOK, 6, 2],
+                           ["R", 9, 0, False, mt, code, 301, TOK, o, 3],
+                           ["R", 11, 0, False, "CON", 69, 302, TOK, 10, 4],
+                           ["R", 13, 0, False, "NON", 69, 303, TOK, 11, 5],
+                           ["A", 40]]
+                    sc = {"events": evs, "rules": [], "draws": [], "mid": c07_stack.REQ_MID, "token": 32}
+                    if work is not None:
+                        sc["consumer"] = {"work": work}
+                    out.append(sc)
+        for first in (["R", 3, 0, False, "ACK", code, c07_stack.REQ_MID, TOK, 5, 1],
+                      ["R", 3, 0, False, "CON", code, 300, TOK, 5, 1],
+                      ["R", 3, 0, False, "NON", code, 300, TOK, 5, 1]):
+            evs = [S, first, ["R", 7, 0, False, "CON", 69, 301, TOK, 6, 2],
+                   ["R", 9, 0, False, "NON", 69, 302, TOK, 7, 3], ["A", 30]]
+            out.append({"events": evs, "rules": [], "draws": [], "mid": c07_stack.REQ_MID, "token": 32,
+                        "consumer": {"work": 0}})
+    for rel in (True, False):
+        for ct in (1, 2, 3000):
+            for work in (0, 3):
+                for fev in ([["R", ct + 5, 0, False, "CON", 69, 300, TOK, 5, 1]],
+                            [["R", ct + 5, 0, False, "NON", 69, 300, TOK, 5, 1],
+                             ["R", ct + 9, 0, False, "CON", 69, 301, TOK, 6, 2]],
+                            [["E", ct + 5, 0]], [["X", ct + 5]], []):
+                    evs = [["S", 0, 0, 0, False, True, None, rel, 1, None, 0, 4], ["C", ct, 0]] + fev + \
+                          [["A", ct + 40]]
+                    out.append({"events": evs, "rules": [], "draws": [], "mid": c07_stack.REQ_MID, "token": 32,
+                                "consumer": {"work": work}})
     return out
 
 
@@ -419,6 +545,7 @@ def run_level_b(env, rep, R):
         bnd = bnd[::2]
     scripts += bnd
     scripts += stack_cancel_first_scripts()
+    scripts += stack_audit_scripts()
     for first in ("piggy", "sep", "noobs", "rst", "err", "shutdown", "cancel",
                   "oc+piggy", "oc+sep", "oc+noobs", "oc+rst", "oc+err", "oc+shutdown"):
         scripts += [stack_script(env.rng, R, forced=first) for _ in range(env.scale(6, 100))]
@@ -437,6 +564,11 @@ def run_level_b(env, rep, R):
         if sc.get("consumer"):
             rep.count("b:consumer=" + ("busy" if sc["consumer"]["work"] else "attentive"))
         evk = [e[0] for e in sc["events"]]
+        if "C" in evk and all(e[0] not in ("R", "E", "X") for e in sc["events"][:evk.index("C")]):
+            rep.count("b:response-cancelled-before-first" + (":consumer" if sc.get("consumer") else ""))
+        if any(e[0] == "R" and e[8] is not None and 96 <= e[5] < 192 and e[7] == c07_stack.TOKEN and e[2] == 0
+               for e in sc["events"]):
+            rep.count("b:non-2.xx-with-observe")
         if "OC" in evk and all(e[0] not in ("R", "E", "X") for e in sc["events"][:evk.index("OC")]):
             rep.count("b:cancel-before-first")
         rep.count("b:callbacks", n_cb)
@@ -491,8 +623,14 @@ def classify(rep, fam, h, res):
     rep.count("a:end=" + (ebs[0] if ebs else "none"))
     if h.get("iter"):
         rep.count("a:iterator=" + h["iter"]["mode"] + (":late" if h["iter"]["start"] else ""))
-    for e in h["events"]:
+    for i, e in enumerate(h["events"]):
         rep.count("a:event=" + e[0] + (":noobs" if e[0] == "M" and e[3] is None else ""))
+        if e[0] == "M" and e[3] is not None and not 64 <= e[2] < 96:
+            rep.count("a:event=M:non-2.xx-with-observe" + (":first" if i == 0 else "") + (":last" if e[5] else ""))
+        if e[0] == "M" and len(e) > 6 and e[6]:
+            rep.count("a:event=M:cancels-in-callback")
+        if e[0] == "RC" and not any(x[0] in ("M", "X") for x in h["events"][:i]):
+            rep.count("a:event=RC:before-first" + (":iterating" if h.get("iter") else ""))
     if any(e[0] == "M" and e[3] is not None and e[3] >= M24 for e in h["events"]):
         rep.count("a:malformed=oversize-observe")
     return n_cb >= 1 and (n_cb < n_notif or bool(ebs))
@@ -514,7 +652,8 @@ async def run_level_a(env, rep, bench, R, fams):
             impl.append(res["impl"])
             cases.append({"level": "a", "history": h})
         compare(env, rep, cases, lines, impl, what="Request._run over a real Pipe (%s)" % fam)
-        if fam.startswith("perm") or fam in ("pairs", "timing", "terminators", "app", "cancel-first"):
+        if fam.startswith("perm") or fam in ("pairs", "timing", "terminators", "app", "cancel-first", "codes",
+                                             "cancel-in-callback", "response-cancel"):
             rep.exhaustive_parts.append(f"{fam}: {len(hs)} histories")
 
 
@@ -626,6 +765,13 @@ APP_SCRIPTS = [
     [["M", 69, (1 << 24) - 1, 1], ["M", 69, 0, 2], ["M", 69, (1 << 24) - 2, 3], ["M", 69, 1, 4]],
     [["M", 69, 10, 1], ["X", 1]],
     [["M", 69, 10, 1], ["X", 0]],
+    # "(as every non-2.xx one is)": error responses that carry an Observe option anyway
+    [["M", 69, 10, 1], ["M", 69, 11, 2], ["M", 132, 12, 3], ["M", 69, 13, 4]],
+    [["M", 69, 10, 1], ["M", 69, 11, 2], ["M", 132, 5, 3], ["M", 69, 13, 4]],
+    [["M", 69, 10, 1], ["M", 160, 11, 2], ["M", 69, 12, 3]],
+    [["M", 132, 10, 1], ["M", 69, 11, 2]],
+    [["M", 160, 0, 1]],
+    [["M", 69, 10, 1], ["M", 95, 11, 2], ["M", 64, 12, 3], ["M", 96, 13, 4], ["M", 69, 14, 5]],
 ]
 APP_GAPS = [(0, 0, 0, 0, 0), (4, 4, 4, 4, 4), (4, 0, 0, 0, 0), (2, 1, 0, 1, 0), (0, 3, 0, 0, 1),
             (4, 4, 4, 0, 0), (4, 4, 0, 4, 0), (1, 1, 1, 1, 1)]
@@ -641,6 +787,25 @@ def level_c_cases(env):
                 for script in APP_SCRIPTS:
                     out.append({"blockwise": bw, "consumer": cons, "open": op, "work": work,
                                 "arrivals": [[g] + a for g, a in zip(gaps, script)]})
+    # the application cancels from inside its callback, at every item of every script
+    for bw in (False, True):
+        for gaps in (APP_GAPS[0], APP_GAPS[1], APP_GAPS[3]):
+            for script in APP_SCRIPTS:
+                for a in script[1:]:
+                    if a[0] == "M":
+                        out.append({"blockwise": bw, "consumer": "callbacks", "open": 0, "work": 0, "cancel_at": a[3],
+                                    "arrivals": [[g] + x for g, x in zip(gaps, script)]})
+    # the application gives the request up (request.response.cancel(), as asyncio.wait_for does) before the first
+    # response -- or after it, where the future is complete and nothing changes
+    for bw in (False, True):
+        for cons, op, work in APP_CONSUMERS:
+            for script in ([], APP_SCRIPTS[0], APP_SCRIPTS[2], APP_SCRIPTS[8]):
+                out.append({"blockwise": bw, "consumer": cons, "open": op, "work": work, "rc": 0,
+                            "arrivals": [[4] + a for a in script]})
+            for script in (APP_SCRIPTS[0], APP_SCRIPTS[1], APP_SCRIPTS[10], APP_SCRIPTS[14]):
+                for rc in (1, 2):
+                    out.append({"blockwise": bw, "consumer": cons, "open": op, "work": work, "rc": rc,
+                                "arrivals": [[4] + a for a in script]})
     for _ in range(env.scale(400, 20000)):
         n = env.rng.randrange(1, 7)
         cur = env.rng.choice([0, 5, (1 << 23) - 1, (1 << 24) - 2])
@@ -648,9 +813,15 @@ def level_c_cases(env):
         for i in range(n):
             r = env.rng.random()
             g = env.rng.choice([0, 0, 0, 1, 2, 4])
-            if r < 0.75:
+            if r < 0.7:
                 cur = (cur + env.rng.choice([1, 1, 2, 0, -1, 1 << 23, (1 << 23) - 1])) % (1 << 24)
                 arr.append([g, "M", 69, cur, i + 1])
+            elif r < 0.77:
+                cur = (cur + env.rng.choice([1, 1, 2, 0, -1])) % (1 << 24)
+                # (2.31 Continue as the answer to the request itself is a Block1 protocol error for BlockwiseRequest: C05)
+                arr.append([g, "M", env.rng.choice([132, 160, 96, 64] + ([95] if i else [])), cur, i + 1])
+                if arr[-1][2] >= 96:
+                    break
             elif r < 0.9:
                 arr.append([g, "M", env.rng.choice([69, 132, 160]), None, i + 1])
                 break
@@ -658,8 +829,14 @@ def level_c_cases(env):
                 arr.append([g, "X", env.rng.randrange(3)])
                 break
         cons, op, work = env.rng.choice(APP_CONSUMERS)
-        out.append({"blockwise": env.rng.random() < 0.6, "consumer": cons, "open": op, "work": work,
-                    "arrivals": arr})
+        sc = {"blockwise": env.rng.random() < 0.6, "consumer": cons, "open": op, "work": work, "arrivals": arr}
+        if cons == "callbacks" and env.rng.random() < 0.3:
+            sc["cancel_at"] = env.rng.randrange(1, n + 1)
+        if env.rng.random() < 0.08:
+            sc["rc"] = env.rng.choice([0, 0, 1])
+            if sc["rc"] == 0:
+                sc["arrivals"] = [a for a in arr if a[1] == "M"]
+        out.append(sc)
     return out
 
 
@@ -673,10 +850,17 @@ async def run_level_c(env, rep, aiocoap):
         rep.count("c:scenarios")
         rep.count("c:api=" + ("blockwise" if sc["blockwise"] else "plain") + ":" + sc["consumer"] +
                   (":late" if sc.get("open") else "") + (":busy" if sc.get("work") else ""))
-        if sc["arrivals"][0][1] == "X":
+        if sc["arrivals"] and sc["arrivals"][0][1] == "X":
             rep.count("c:first-event-transport-error:" + ("blockwise" if sc["blockwise"] else "plain"))
         if any(a[0] == 0 for a in sc["arrivals"][1:]):
             rep.count("c:back-to-back")
+        if sc.get("rc") is not None:
+            rep.count("c:response-cancelled:" + ("before-first" if sc["rc"] == 0 else "later") + ":" +
+                      ("blockwise" if sc["blockwise"] else "plain") + ":" + sc["consumer"])
+        if sc.get("cancel_at") is not None:
+            rep.count("c:cancel-in-callback" + (":hit" if ("item", sc["cancel_at"]) in res["seen"] else ""))
+        if any(a[1] == "M" and a[3] is not None and not 64 <= a[2] < 96 for a in sc["arrivals"]):
+            rep.count("c:non-2.xx-with-observe")
         for x in res["seen"]:
             if x[0] != "item":
                 rep.count("c:end=" + x[0] + (":" + x[1] if len(x) > 1 else ""))
